@@ -377,6 +377,57 @@ def run_atf(case, seed, R):
 
 
 # ---------------------------------------------------------------------------------------------
+# argument forms: how dx is spelled, what dtype the object has -- with CALLABLE transfer functions and no user grids
+
+DX_FORMS = {'int1': 1, 'int2': 2, 'float': 0.5, 'np.float32': np.float32(0.5), 'np.int64': np.int64(2)}
+FORM_LISTS = [[nm] for nm in CALLABLES] + [['c_fx', 'c_fy'], ['c_fr', 'c_ft'], ['c_all', 'herm'], ['real', 'c_fyfx']]
+
+
+def run_atf_forms(case, seed, R):
+    n0, n1, names, shifted, dxf, dt = case['n0'], case['n1'], case['tfs'], case['shift'], case['dx'], case['dtype']
+    shape = (n0, n1)
+    N = n0 * n1
+    dx = DX_FORMS[dxf]
+    G = ref_grids(shape, float(dx), shifted)
+    tfs, evald = [], []
+    for nm in names:
+        if nm in CALLABLES:
+            f, args = CALLABLES[nm]
+            tfs.append(f)
+            evald.append(np.broadcast_to(f(*[G[a] for a in args]), shape))
+        else:
+            t = tf_array(nm, shape, seed, shifted)
+            tfs.append(t)
+            evald.append(t)
+    Tprod = np.ones(shape, dtype=complex)
+    for t in evald:
+        Tprod = Tprod * t
+    Aref = ref_operator(Tprod, shape, shifted)
+    amp = float(np.prod([max(1.0, float(np.abs(t).max())) for t in evald]))
+    # a float32 object or a float32 dx legitimately gives single-precision spectra / frequency grids
+    eps = float(np.finfo(np.float32).eps) if (dt == 'float32' or dxf == 'np.float32') else EPS
+    conv = 'shift' if shifted else 'noshift'
+    sig = f'atf:{conv}:callable:dx={dxf}' if dt == 'float64' else f'atf:{conv}:callable:obj={dt}'
+    objs = []
+    for p in sorted({0, N - 1, (n0 // 2) * n1 + n1 // 2}):
+        d = np.zeros(shape, dtype=dt)
+        d.flat[p] = OBJ_DTYPES[dt]
+        objs.append((d, f'impulse {divmod(p, n1)}'))
+    objs.append((dense_as(shape, seed, 70, dt), 'dense'))
+    for o, label in objs:
+        o64 = o.astype(float)
+        tol = 500 * eps * amp * max(float(np.abs(o64).sum()), 1e-300)
+        want = (Aref @ o64.ravel()).reshape(shape)
+        got = R.call(convolution.apply_transfer_functions, o, dx, list(tfs), shift=shifted, sig=sig + ':exception')
+        R.expect_close(got, want, tol, sig, f'{dt} {label} through callables {names}, dx={dx!r} ({dxf}), shift={shifted}, {shape} vs DFT reference on the grid of the stated convention')
+        one = R.call(convolution.apply_transfer_functions, o, dx, [Tprod], shift=shifted, sig=sig + ':exception')
+        if got is not FAILED and one is not FAILED and np.asarray(one).shape == shape == np.asarray(got).shape:
+            R.expect_close(got, np.asarray(one), 2 * tol, sig, f'list {names} != the same product handed in as one array ({dt} {label}, dx={dxf})')
+    R.nontrivial(N > 1)
+    R.outcome(f'{dxf}:{dt}')
+
+
+# ---------------------------------------------------------------------------------------------
 # MTF / PTF / OTF
 
 def ref_otf(psf):
@@ -615,6 +666,9 @@ def plan(tier, seed):
     large_cases = [{'n0': a, 'n1': b} for a, b in big]
     atf_large_cases = [{'n0': a, 'n1': b, 'tfs': l, 'shift': sh, 'grid': 'omitted'} for a, b in big
                        for l in (['ones'], ['herm'], ['c_fr'], ['real', 'c_fx']) for sh in (True, False)]
+    # dx forms on float64 objects, object dtypes with dx = python int 2 and float: the two alphabets are crossed with every list, shape, convention
+    form_cases = [{'n0': a, 'n1': b, 'tfs': l, 'shift': sh, 'dx': dxf, 'dtype': dt} for a, b in shapes for l in FORM_LISTS for sh in (True, False)
+                  for dxf, dt in [(d, 'float64') for d in DX_FORMS] + [(d, t) for d in ('int2', 'float') for t in OBJ_DTYPES if t != 'float64']]
     mtf_cases = [{'n0': a, 'n1': b, 'kind': 'single'} for a, b in shapes]
     mtf_cases += [{'n0': a, 'n1': b, 'kind': 'pair', 'p': p} for a, b in shapes for p in range(a * b - 1)]
     mtf_cases += [{'n0': a, 'n1': b, 'kind': 'dense', 'salt': k} for a, b in shapes for k in (0, 1, 2)]
@@ -635,6 +689,10 @@ def plan(tier, seed):
                   'all-ones/empty list == identity; dense object; list == product (implementation against itself)'),
         ScopeUnit('atf_flag_forms', flag_cases, run_atf,
                   f'every shape in [1..{B}]^2 x ALL lists of length <= 1 from the pool x grids x the shift flag spelled np.bool_(True/False) and 1/0: judged exactly like shift=True/False'),
+        ScopeUnit('atf_forms', form_cases, run_atf_forms,
+                  f'callable transfer functions without user grids: every shape in [1..{B}]^2 x lists {{every single callable of (fx),(fy),(fr),(ft),(fy,fx),(fr,ft),(fx,fy,fr,ft), partial, method; 4 mixed pairs}} x shift x '
+                  '(dx spelled as python int 1, 2, float 0.5, np.float32(0.5), np.int64(2) with float64 objects; object dtype {bool, uint8, uint16, int32, float32} with dx in {2, 0.5}): corner / centre / last impulses and one dense object of that dtype; '
+                  'oracle: explicit-DFT reference with the callables evaluated on the grid of the stated convention, and list == the same product as one array'),
         ScopeUnit('mtf', mtf_cases, run_mtf,
                   f'every shape in [1..{B}]^2: PSF = EVERY unit impulse (array and RichData form), EVERY pair of impulses with weights {{1,3}}, '
                   'three seeded dense / sparse non-negative arrays: MTF==|OTF_ref|, MTF[o]==1 exactly, MTF<=1+256eps, cyclic point symmetry, '
